@@ -230,8 +230,10 @@ def merge(results):
     counters, maxima, samples, extra = {}, {}, [], {}
     distinct_sum = 0
     dropped = 0
+    keys = set()
     for r in results:
         for s in r["S"]:
+            keys.update(s.get("keyset", []))
             for k, v in s.get("counters", {}).items():
                 counters[k] = counters.get(k, 0) + v
             for k, v in s.get("maxima", {}).items():
@@ -243,6 +245,7 @@ def merge(results):
                     samples.append(x)
             for k, v in s.get("extra", {}).items():
                 extra.setdefault(k, v)
+    counters["distinct_keys"] = len(keys)
     return counters, maxima, samples, extra, distinct_sum, dropped
 
 
@@ -281,7 +284,9 @@ def write_replay(prop, seed, tier, v, n):
     d = os.path.join(HERE, "replays")
     os.makedirs(d, exist_ok=True)
     h = hashlib.sha1(json.dumps(v, sort_keys=True).encode()).hexdigest()[:10]
-    path = os.path.join(d, "%s-%s-%s.json" % (prop, v.get("kind", "crash").split(":")[0].replace("/", "_")[:24], h))
+    import re
+    kind = re.sub(r"[^A-Za-z0-9_]+", "_", v.get("kind", "crash"))[:24].strip("_")
+    path = os.path.join(d, "%s-%s-%s.json" % (prop, kind, h))
     v = dict(v)
     v["property"] = prop
     v["seed"] = v.get("seed", seed)
